@@ -1,7 +1,7 @@
 """C12 -- the software datapath applies actions and port rules as OpenFlow 1.0 prescribes.
 
 One SoftwareSwitch on a fake IOWorker (pvf.sim.world.SwitchEnd, no controller).  A case is a small
-script: port-mods, link-down marks, a fragment-handling mode, then 1..3 deliveries of a frame with an
+script: port-mods, link-down marks, a fragment-handling mode (OFPT_SET_CONFIG; it may be changed again between deliveries), then 1..3 deliveries of a frame with an
 action list, either by OFPT_PACKET_OUT, or by installing a flow and injecting the frame on a port, or
 with an empty table (table miss).  Between deliveries further port-mods, link changes and "the next
 transmit fails once" (a DpPacketOut listener of the harness raising) may occur; every delivery is judged
@@ -49,7 +49,8 @@ RULE = ("a case is a script of port-mods, link-down marks and 1..3 deliveries (p
         "ARP, on a 0x9100/0x88a8 frame that only resembles tagged IPv4, tp rewrite on ICMP ...), or (g) has a transmit failure fire in a "
         "delivery that is followed by a judged one, or (h) releases a buffer by packet-out, or (i) must emit a datagram whose transport checksum "
         "computes to zero (UDP 0xffff, TCP 0x0000), or (j) emits, or shows to the controller, an irregular frame (one whose packet is not a well-formed packet "
-        "of the protocol its EtherType / IP protocol names; label irregular:<layer>:<what>); distinct by SHA-1 of the canonical JSON of the case")
+        "of the protocol its EtherType / IP protocol names; label irregular:<layer>:<what>); or (k) has an IPv4 fragment arrive on a port (not by packet-out) while OFPC_FRAG_DROP is configured (labels fragment-dropped:<kind> / fragment-dropped:<encapsulation>); "
+        "distinct by SHA-1 of the canonical JSON of the case")
 ASSUMPTIONS = [
   "regular frames carry valid checksums and consistent lengths (the generator builds them with ref/frames.py and ref/frames12.py; the validator re-checks every such input frame); "
   "a link-layer trailer behind an IPv4/IPv6/ARP packet (padding to 60 octets, or a few octets) is part of the frame: it must come out again and no length or checksum covers it",
@@ -68,6 +69,11 @@ ASSUMPTIONS = [
   "ports are not added or deleted (OpenFlow 1.0 has no message for it)",
   "a transmit that fails (the harness's DpPacketOut listener raising once) may abort the delivery it happens in - that delivery and the counters it moved are not judged - "
   "but must leave the switch behaving, for every later delivery, as one that never had the failure",
+  "OFPC_FRAG_DROP (set by OFPT_SET_CONFIG, at the start or between deliveries; the mode of the moment decides) makes the datapath drop every IPv4 fragment (MF set or a non-zero offset) that ARRIVES on a port, "
+  "whatever link-layer encapsulation OpenFlow 1.0 looks through carries it (Ethernet II, one 802.1Q tag of any pcp / cfi / vid, LLC/SNAP with OUI 0): nothing is emitted, no packet-in, no tx counter moves; whether it is counted as received is left open; "
+  "whole datagrams, and fragments under OFPC_FRAG_NORMAL, are forwarded like any frame; OFPC_FRAG_REASM is not offered by this datapath (no OFPC_IP_REASM capability) and is judged as NORMAL; "
+  "a packet-out is not an arrival (its explicit outputs are executed); its OFPP_TABLE lookup of a fragment under DROP is an open zone",
+  "TCP option VALUES are payload to a datapath: a window-scale shift above 14, an MSS of 0, a SACK block running backwards are carried as they are (RFC 7323's 'use 14' is a rule for the receiving end host)",
   "a buffer id announced by a packet-in names the frame that packet-in showed (its data is a prefix of it, total_len its length), whatever the rest of the action list did afterwards; "
   "a packet-out releasing it carries the in_port the packet-in reported; only buffers of judged deliveries are released",
   "'other' frames are 802.3/LLC, SNAP (OUI 0 + IPv4/ARP PID with a well-formed packet of that kind, or a PID nothing dissects, or another OUI with opaque bytes), well-formed LLDP and EAPOL-Start/Logoff, RARP, "
@@ -91,13 +97,15 @@ EXHAUSTIVE_SCOPE = {
            "and each of the 10 field-modify actions alone before an output x 13 frames it must leave alone or that only resemble tagged IPv4 (EtherTypes 0x9100/0x88a8/0x9200/0x9300/0x8101/0x0801 before a tag-like word + IPv4/TCP, ARP, ICMP, later fragment, LLC) x {flow, packet-out} x 2 output tails; "
            "and 8 first deliveries x 44 changes in between (each of the 6 config bits set / cleared by port-mod on port 1, 2 or 3, link down / up on each, one failing transmit, nothing) x 8 second deliveries "
            "(flow FLOOD / ALL / FLOOD of an STP frame / [set_dl_dst, 2, IN_PORT, CONTROLLER], packet-out FLOOD / ALL / TABLE, table miss); "
-           "and 18 TCP option layouts (every option kind as the last option ending exactly at the data offset, NOP and EOL padding variants) x payload {none, even, odd} x {untagged, tagged} x {no rewrite, set_nw_src/dst/tos, set_tp_src/dst} x {flow, packet-out}; "
+           "and 23 TCP option layouts (every option kind as the last option ending exactly at the data offset, NOP and EOL padding variants, option values outside what an end host accepts: window-scale shift 15 / 255, MSS 0 / 65535, timestamps of all ones, a SACK block running backwards) x payload {none, even, odd} x {untagged, tagged} x {no rewrite, set_nw_src/dst/tos, set_tp_src/dst} x {flow, packet-out}; "
            "and [CONTROLLER, one of the 10 field-modify actions, output:2] on 4 frames x {flow, packet-out} x max_len {0, 0xffff} followed by a packet-out releasing the announced buffer with 3 lists, plus table-miss buffers; "
            "and UDP and TCP datagrams whose checksum computes to zero as they arrive or after one of set_nw_src / set_nw_dst / set_tp_src / set_tp_dst, the free word being the first payload word, the source or the destination port, "
            "x even / odd payload x {untagged, tagged} x {flow, packet-out}, and over IPv6 for plain output; "
            "and IPv4 UDP/TCP/ICMP, IPv6 UDP/TCP and ARP frames x {untagged, tagged} x {padded to 60 octets, 3-octet non-zero trailer} x {no rewrite, 6 rewrites} x {flow, packet-out} plus table miss; "
            "and each of the 36 kinds of irregular packet (see ASSUMPTIONS) x 3 parameter sets x {untagged, tagged} x {as built, padded to 60 octets, 3-octet non-zero trailer - where the irregularity admits a trailer} "
-           "x {plain output, set_vlan_vid, strip_vlan, set_dl_src} x {flow, packet-out}, each with output:2 and output:CONTROLLER, plus table miss",
+           "x {plain output, set_vlan_vid, strip_vlan, set_dl_src} x {flow, packet-out}, each with output:2 and output:CONTROLLER, plus table miss; "
+           "and fragment handling {NORMAL, DROP, REASM} x {whole datagram, first / middle / last fragment} of UDP / TCP / ICMP x {Ethernet II, three kinds of 802.1Q tag (ordinary, priority, CFI set), LLC/SNAP, tagged LLC/SNAP} "
+           "x {flow [2, CONTROLLER], flow [set_dl_src, FLOOD], table miss, packet-out}, plus the mode switched DROP / NORMAL / DROP between deliveries of each fragment",
   "thorough": "as quick, additionally with a tagged TCP frame and the list [strip_vlan, ALL, set_tp_dst, output:2, set_nw_dst, FLOOD, enqueue:2, CONTROLLER]",
 }
 
@@ -684,6 +692,18 @@ def _run(case, sw, out, nt):
       sw.fault_armed = True                 # the next emission, whenever it comes, fails once
       out.label("fault-armed")
       continue
+    if mode == "set_config":
+      try:
+        sw.send(enc_set_config(step["frag"], miss_send_len, sw.nx()))
+      except HarnessError:
+        raise
+      except Exception as e:
+        _exc(out, e, "exception")
+        return
+      frag_mode = step["frag"]
+      out.label("set-config-between-deliveries", "frag-mode-%d" % frag_mode)
+      end.take_sent()
+      continue
     port_state = port_state_now()
     buffer_id = None
     if mode == "buffer_out":
@@ -744,6 +764,9 @@ def _run(case, sw, out, nt):
       out.label("encap:snap-" + ("ipv4" if dis["ethertype"] == F.ETH_IP else "arp"))
     if "tcp" in dis and dis["tcp"]["options"]:
       out.label("tcp-options")
+      _ob = bytes(dis["tcp"]["options"])
+      if any(kind == 3 and ln == 3 and _ob[off + 2] > 14 for off, kind, ln in F12.tcp_option_kinds(_ob)):
+        out.label("tcp-option-value:ws-shift>14")
     if "ipv4" in dis and dis["ipv4"]["options"]:
       out.label("ip-options")
     if "ipv4" in dis and (dis["ipv4"]["total_len"] - dis["ipv4"]["hlen"]) % 2:
@@ -854,10 +877,15 @@ def _run(case, sw, out, nt):
         continue
       rx_hi[in_port][0] += 1
       rx_hi[in_port][1] += len(frame)
+      if is_frag:
+        out.label("fragment-arrives:frag-mode-%d" % frag_mode)
       if frag_mode == 1 and is_frag:
-        out.label("fragment-dropped")
+        encap = ("snap" if "snap" in dis else "eth2") + "+%dtag" % ntags
+        out.label("fragment-dropped", "fragment-dropped:" + fclass, "fragment-dropped:" + encap)
+        nt[0] = True
         if emitted or pktins:
-          _vkey(out, "fragment-not-dropped", "OFPC_FRAG_DROP is set but a fragment was processed")
+          _vkey(out, "fragment-not-dropped", "OFPC_FRAG_DROP is set but a %s (%s) arriving on port %d was processed: %d frame(s) emitted, %d packet-in(s)\n frame %s" % (
+              fclass, encap, in_port, len(emitted), len(pktins), frame.hex()), encap=encap)
           return
         if not _check_stats(out, sw, port_state, tx, rx_lo, rx_hi, kd):
           return
@@ -1101,6 +1129,12 @@ def _tcp_option_layouts():
     ("nop-nop-sackperm", T([["nop"], ["nop"], ["sackperm"]])),
     ("mss-sackperm-ts-nop-ws", T([["mss", 1460], ["sackperm"], ["ts", 0x11223344, 0], ["nop"], ["ws", 7]])),
     ("nop-ws", T([["nop"], ["ws", 2]])),
+    # option VALUES an end host would refuse or clamp, which a forwarder has to carry as they are
+    ("nop-ws14", T([["nop"], ["ws", 14]])),
+    ("nop-ws15", T([["nop"], ["ws", 15]])),
+    ("mss0-nop-ws255-sackperm", T([["mss", 0], ["nop"], ["ws", 255], ["sackperm"]])),
+    ("mss65535-ts-max", T([["mss", 0xffff], ["nop"], ["nop"], ["ts", 0xffffffff, 0xffffffff]])),
+    ("nop-nop-sack-reversed", T([["nop"], ["nop"], ["sack", [[4000, 3000], [0xffffffff, 0]]]])),
     ("nop-nop-ts", T([["nop"], ["nop"], ["ts", 0x01020304, 0x05060708]])),
     ("nop-nop-sack", T([["nop"], ["nop"], sack1])),
     ("ts-nop-nop-sack", T([["nop"], ["nop"], ["ts", 1, 2], ["nop"], ["nop"], sack1])),
@@ -1131,7 +1165,8 @@ def _tcp_opts(draw):
     elif k == 1:
       opts.append(["mss", draw(_U16)])
     elif k == 2:
-      opts.append(["ws", draw(st.integers(0, 14))])
+      # the shift count is one octet on the wire: 0..14 is what RFC 7323 lets a receiver USE, a forwarder carries any
+      opts.append(["ws", draw(st.one_of(st.integers(0, 14), st.sampled_from([14, 15, 16, 127, 128, 255]), st.integers(0, 255)))])
     elif k == 3:
       opts.append(["sackperm"])
     elif k == 4:
@@ -1150,7 +1185,8 @@ def _tcp_opts(draw):
 
 
 @st.composite
-def _ipv4_packet(draw, proto_kind):
+def _ipv4_packet(draw, proto_kind, fragment=None):
+  """fragment: None (mostly whole datagrams), or "first" / "middle" / "last" to force that kind of fragment."""
   src = draw(_U32)
   dst = draw(_U32)
   tos = draw(st.one_of(st.sampled_from([0, 0x10, 0xb8, 0xfc]), st.integers(0, 255)))
@@ -1169,6 +1205,9 @@ def _ipv4_packet(draw, proto_kind):
   elif frag == 11:
     fragoff = draw(st.sampled_from([1, 2, 185, 0x1fff]))
     mf = draw(st.booleans())
+  if fragment is not None:
+    mf = fragment != "last"
+    fragoff = 0 if fragment == "first" else (fragoff or draw(st.sampled_from([1, 3, 185, 0x1fff])))
   whole = not mf and fragoff == 0
   if proto_kind == "tcp":
     proto = 6
@@ -1337,6 +1376,23 @@ def _frame_no_trailer(draw):
 
 
 @st.composite
+def _fragment_frame(draw):
+  """An IPv4 fragment (first / middle / last, of TCP / UDP / ICMP / another protocol) in every encapsulation OpenFlow 1.0
+  looks through: Ethernet II, one 802.1Q tag (any pcp / cfi / vid, priority tag included), LLC/SNAP with OUI 0, both."""
+  dst = draw(st.one_of(st.sampled_from([R.STP_MAC, b"\xff" * 6]), _MAC, _MAC, _MAC))
+  src = draw(_MAC)
+  pkt = draw(_ipv4_packet(draw(st.sampled_from(["tcp", "udp", "udp", "icmp", "other"])),
+                          fragment=draw(st.sampled_from(["first", "middle", "last"]))))
+  v = draw(st.integers(0, 9))
+  vlan = None
+  if v >= 3:
+    vlan = [[draw(st.integers(0, 7)), 1 if v == 9 else 0, draw(st.sampled_from([0, 0, 1, 5, 100, 4094, 4095]))]]
+  if draw(st.integers(0, 5)) == 5:
+    return F.build_8023(dst, src, pkt, snap=(bytes(3), F.ETH_IP), vlan=vlan)
+  return F.build_eth(dst, src, F.ETH_IP, pkt, vlan=vlan)
+
+
+@st.composite
 def _irregular_frame(draw):
   """A frame whose packet has exactly one named irregularity (ref/frames12m.py builds it from a few drawn integers):
   header lengths that contradict each other or the octets present, wrong versions, cut-off headers, wrong checksums,
@@ -1452,12 +1508,18 @@ def _action_list(draw, nports, allow_table):
 
 
 @st.composite
-def step_strategy(draw, nports, mode=None):
+def step_strategy(draw, nports, mode=None, fragments=False):
   if mode is None:
     m = draw(st.integers(0, 19))
     mode = "packet_out" if m <= 8 else ("flow" if m <= 17 else "miss")
+    if fragments and m <= 5:
+      mode = "flow" if m <= 3 else "miss"        # fragment handling is a matter of frames that ARRIVE
   irregular = draw(st.integers(0, 7)) == 7
-  frame = draw(_irregular_frame() if irregular else frame_strategy())
+  if fragments and draw(st.integers(0, 2)) != 0:
+    irregular = False
+    frame = draw(_fragment_frame())
+  else:
+    frame = draw(_irregular_frame() if irregular else frame_strategy())
   if mode == "packet_out":
     in_port = draw(st.one_of(_phys_port(nports), _phys_port(nports), _phys_port(nports),
                              st.sampled_from([R.OFPP_NONE, R.OFPP_NONE, R.OFPP_NONE, R.OFPP_CONTROLLER, R.OFPP_CONTROLLER, nports + 1])))
@@ -1504,8 +1566,11 @@ def case_strategy(draw):
   if draw(st.integers(0, 7)) == 7:
     case["link_down"] = [draw(_phys_port(nports))]
   fm = draw(st.integers(0, 19))
-  if fm >= 18:
-    case["frag"] = 1 if fm == 18 else 2
+  if fm >= 16:
+    case["frag"] = 2 if fm == 19 else 1
+  # a case that configures fragment handling (now, or between deliveries) meets fragments, in every encapsulation
+  reconfig = draw(st.integers(0, 19)) == 19
+  fragments = "frag" in case or reconfig
   ns = draw(st.sampled_from([1, 1, 1, 1, 1, 2, 2, 2, 3, 0, -1]))
   if ns == -1:
     # buffered packet-out scenario: show the frame to the controller in the middle of a list that goes on rewriting it,
@@ -1519,8 +1584,8 @@ def case_strategy(draw):
     case["steps"] = [first, {"mode": "buffer_out", "which": draw(st.integers(0, 3)), "actions": draw(_action_list(nports, True))}]
   elif ns == 0:
     # OFPP_TABLE scenario: install a flow (its own frame is delivered too), then packet-out through the table
-    first = draw(step_strategy(nports, mode=draw(st.sampled_from(["flow", "flow", "flow", "miss"]))))
-    second = draw(step_strategy(nports, mode="packet_out"))
+    first = draw(step_strategy(nports, mode=draw(st.sampled_from(["flow", "flow", "flow", "miss"])), fragments=fragments))
+    second = draw(step_strategy(nports, mode="packet_out", fragments=fragments))
     if draw(st.integers(0, 3)) != 0:
       second["in_port"] = first["in_port"] if draw(st.booleans()) else draw(_phys_port(nports))
     acts = second["actions"][:5]
@@ -1528,13 +1593,18 @@ def case_strategy(draw):
     second["actions"] = acts
     case["steps"] = [first, second]
   else:
-    case["steps"] = [draw(step_strategy(nports)) for _ in range(ns)]
+    if reconfig and ns < 2:
+      ns = 2
+    case["steps"] = [draw(step_strategy(nports, fragments=fragments)) for _ in range(ns)]
   # things that happen between deliveries: port-mods, link changes, a transmit that fails once
   deliveries = case["steps"]
   if len(deliveries) >= 2:
     steps = []
     for i, d in enumerate(deliveries):
       r = draw(st.integers(0, 9))
+      if reconfig and i > 0 and draw(st.booleans()):
+        # OFPT_SET_CONFIG between deliveries: the fragment handling mode of the moment decides
+        steps.append({"mode": "set_config", "frag": draw(st.sampled_from([0, 1, 1, 2]))})
       if i == 0:
         if r == 9:
           steps.append({"mode": "fault"})
@@ -1886,6 +1956,52 @@ def _irregular_cases():
               yield {"nports": 3, "steps": [step]}
 
 
+def _fragment_cases():
+  """Fragment handling (OFPT_SET_CONFIG flags) x what arrives: {NORMAL, DROP, REASM (not offered by this datapath: as NORMAL)} x
+  {whole datagram, first, middle, last fragment} of UDP / TCP / ICMP x {Ethernet II, 802.1Q tagged, priority tagged, CFI set,
+  LLC/SNAP, tagged LLC/SNAP} x {flow with outputs, flow with a link-layer rewrite and FLOOD, table miss, packet-out}; and the
+  mode switched between deliveries of one fragment (DROP, NORMAL, DROP again, then a whole datagram).  Under DROP no arriving
+  fragment may be forwarded, shown to the controller or counted as transmitted; everything else is forwarded as it is."""
+  A, B = bytes.fromhex("0200000000a1"), bytes.fromhex("0200000000b2")
+  S, D = 0x0a000001, 0x0a000002
+  data = bytes(range(1, 49))
+  wholes = {"udp": (17, F.build_udp(S, D, 1111, 2222, data)),
+            "tcp": (6, F.build_tcp(S, D, 1111, 80, data[:28], seq=3, ack=4, flags=0x18)),
+            "icmp": (1, F.echo(8, 7, 1, data[:40]))}
+  def packets(name):
+    proto, seg = wholes[name]
+    return [("whole", F.build_ipv4(S, D, proto, seg, ident=61)),
+            ("first", F.build_ipv4(S, D, proto, seg[:24], ident=61, mf=True)),
+            ("middle", F.build_ipv4(S, D, proto, seg[24:40], ident=61, mf=True, frag=3)),
+            ("last", F.build_ipv4(S, D, proto, seg[40:] + b"\x55\x66\x77", ident=61, frag=5))]
+  def encaps(pkt):
+    out = [F.build_eth(B, A, F.ETH_IP, pkt, vlan=v) for v in (None, (0, 0, 5), (3, 0, 100), (7, 0, 0), (1, 1, 9))]
+    out += [F.build_8023(B, A, pkt, snap=(bytes(3), F.ETH_IP), vlan=v) for v in (None, (2, 0, 77))]
+    return out
+  l_out = [{"a": "output", "port": 2, "max_len": 0}, {"a": "output", "port": R.OFPP_CONTROLLER, "max_len": 0xffff}]
+  l_flood = [{"a": "set_dl_src", "v": bytes.fromhex("02aabbccdd01")}, {"a": "output", "port": R.OFPP_FLOOD, "max_len": 0}]
+  def deliveries(fr):
+    return [{"mode": "flow", "match": "all", "in_port": 1, "frame": fr, "actions": l_out},
+            {"mode": "flow", "match": "in_port", "in_port": 1, "frame": fr, "actions": l_flood},
+            {"mode": "miss", "in_port": 1, "frame": fr},
+            {"mode": "packet_out", "in_port": 1, "frame": fr, "actions": l_out}]
+  for name in ("udp", "tcp", "icmp"):
+    pk = packets(name)
+    whole = pk[0][1]
+    for kind, pkt in pk:
+      for fr, fr_whole in zip(encaps(pkt), encaps(whole)):
+        for frag in (1, 0, 2):
+          for d in deliveries(fr):
+            case = {"nports": 3, "steps": [d], "stats_port": 2}
+            if frag:
+              case["frag"] = frag
+            yield case
+        if kind != "whole":
+          d = deliveries(fr)
+          yield {"nports": 3, "frag": 1, "stats_port": 1,
+                 "steps": [d[0], {"mode": "set_config", "frag": 0}, d[1], {"mode": "set_config", "frag": 1}, d[2], deliveries(fr_whole)[0]]}
+
+
 def plan(tier):
   n = 4000 if tier == "quick" else 300000
   return [
@@ -1899,5 +2015,6 @@ def plan(tier):
     Enum("checksum-boundary", _boundary_cases, shards=2),
     Enum("trailers", _trailer_cases, shards=2),
     Enum("irregular-frames", _irregular_cases, shards=8),
+    Enum("fragment-handling", _fragment_cases, shards=4),
     Hyp("generated", case_strategy, examples=n, shards=16),
   ]
